@@ -632,6 +632,12 @@ class SystemFamily:
                     for meth, order, fwd in combos:
                         self._add(Op(f"{s}.propagate({ic},{tf},{meth}{order},{fwd:+d})", self._prop(s, ic, tf, meth, order, fwd),
                                      memo_tag="propagate", kind="propagate", arg=(ic, tf, meth, order, fwd)))
+        # a NEGATIVE final time (same magnitude as a positive one in the alphabet): another quantity, which must not share a memo entry
+        # with +tf (fixed-step scheme: it integrates the descending grid; the adaptive one declines negative spans)
+        for ic in self.ICS:
+            for meth, order, fwd in (("fixed", 4, 1),):
+                self._add(Op(f"sa.propagate({ic},-1.0,{meth}{order},{fwd:+d})", self._prop("sa", ic, -1.0, meth, order, fwd),
+                             memo_tag="propagate", kind="propagate", arg=(ic, -1.0, meth, order, fwd)))
         self._add(Op("sa.saveload", self._saveload("sa"), twin_fn=lambda h: "reloaded", kind="saveload"))
 
     def _add(self, op):
